@@ -65,6 +65,14 @@ def main(argv=None):
     try:
         mod = importlib.import_module("xsgv.rules.%s" % prop.lower())
         mod.run(ctx)
+        if a.tier == "thorough" and not a.replay and not os.environ.get("XSGV_NO_EXTRAS"):
+            from . import thorough
+            if prop in ("C05", "C07", "C08", "C11", "C06", "C10", "C12"):
+                thorough.positive_controls(run, prop)
+            thorough.clippy_cross_reference(run, prop)
+            if prop == "C07":
+                thorough.stack_budget(run, ctx.lib)
+            thorough.sensitivity(run, prop)
     except (extract.ExtractError, report.CheckerFailure) as e:
         print("CHECKER-FAILURE property=%s: %s" % (prop, e))
         return 2
